@@ -263,6 +263,20 @@ func (v *Voxels) littleToBigEndian(data []uint8) (bigendian []uint8, err error) 
 	return
 }
 
+// checkROIBlockSize returns an error if the ROI is made of blocks of another size than the
+// data's: the ROI is applied by comparing block coordinates, which would then select blocks
+// that lie elsewhere in voxel space.
+func (d *Data) checkROIBlockSize(r *ROI, roiname dvid.InstanceName) error {
+	if r == nil || r.Iter == nil {
+		return nil
+	}
+	if blockSize, ok := d.BlockSize().(dvid.Point3d); !ok || !r.Iter.BlockSize().Equals(blockSize) {
+		return fmt.Errorf("ROI %q has block size %s but data %q has block size %s: cannot restrict by ROI",
+			roiname, r.Iter.BlockSize(), d.DataName(), d.BlockSize())
+	}
+	return nil
+}
+
 // GetROI returns an imageblk.ROI that can iterate over the provided Voxels
 // unless roiname is empty, which prompts a nil ROI returned.
 func GetROI(v dvid.VersionID, roiname dvid.InstanceName, bnd dvid.Bounder) (*ROI, error) {
@@ -357,6 +371,9 @@ type getOperation struct {
 func (d *Data) GetVoxels(v dvid.VersionID, vox *Voxels, roiname dvid.InstanceName) error {
 	r, err := GetROI(v, roiname, vox)
 	if err != nil {
+		return err
+	}
+	if err := d.checkROIBlockSize(r, roiname); err != nil {
 		return err
 	}
 
